@@ -69,3 +69,15 @@ func init() {
 		Quick:    tierCfg{Shards: 16, Checks: 400, Procs: mixedProcs, TimeoutS: 600, ReplayRepeat: 30},
 		Thorough: tierCfg{Shards: 16, Checks: 10000, Procs: mixedProcs, TimeoutS: 3000, ReplayRepeat: 200}}
 }
+
+func init() {
+	specs["C19"] = propSpec{Level: "exploration",
+		Quick:    tierCfg{Shards: 16, Checks: 300, Procs: mixedProcs, TimeoutS: 900, ReplayRepeat: 20},
+		Thorough: tierCfg{Shards: 16, Checks: 8000, Procs: mixedProcs, TimeoutS: 3600, ReplayRepeat: 100}}
+}
+
+func init() {
+	specs["C01"] = propSpec{Level: "exploration",
+		Quick:    tierCfg{Shards: 16, Checks: 250, Procs: mixedProcs, TimeoutS: 900, ReplayRepeat: 20},
+		Thorough: tierCfg{Shards: 16, Checks: 6000, Procs: mixedProcs, TimeoutS: 5400, ReplayRepeat: 100}}
+}
